@@ -27,13 +27,27 @@ def gen(rng, tier):
     n = 160 if tier == "quick" else 5000
     for t in range(n):
         fmt = FORMATS[t % len(FORMATS)]
-        c = gtio.gen_content(rng, allow_half_missing=not fmt.startswith(".pgen"), many_alleles=0.12, medium=0.06)
+        c = gtio.gen_content(rng, allow_half_missing=not fmt.startswith(".pgen"), many_alleles=0.12, medium=0.1)
         p = len(c["variants"])
         c["fmt"] = fmt
         c["wchunk"] = rng.choice([None, 1, 2, max(p, 1), p + 2])
         c["rchunk"] = rng.choice([None, 1, 2, max(p, 1), p + 2])
+        if p > 16:
+            # chunk sizes that leave a short trailing chunk (17 or 33 variants read 16 at a time, …)
+            c["rchunk"] = rng.choice([c["rchunk"], 16, 16, 32, p - 1, (p - 1) // 2 + 1])
+            c["wchunk"] = rng.choice([c["wchunk"], 16, p - 1])
         c["reader"] = rng.choice(["Genotypes", "GenotypesVCF"]) if not fmt.startswith(".pgen") else "GenotypesPLINK"
         c["drop_phase_plane"] = rng.random() < 0.1  # a matrix without third plane: all calls phased
+        if t == 3 or (tier != "quick" and t % 1000 == 7):
+            # a cohort-sized matrix (about 100 000 calls) in which a single heterozygous call is unphased
+            ns_, nv_ = 300, 400
+            c["samples"] = [f"samp{i}" for i in range(ns_)]
+            c["variants"] = [{"id": f"rs{j}", "chrom": "1", "pos": 10 * (j + 1), "alleles": ["A", "C"]} for j in range(nv_)]
+            c["data"] = [[[rng.randint(0, 1), rng.randint(0, 1), 1] for _ in range(nv_)] for _ in range(ns_)]
+            i_, j_ = rng.randrange(ns_), rng.randrange(nv_)
+            c["data"][i_][j_] = [0, 1, 0]
+            c["fmt"], c["reader"], c["wchunk"], c["rchunk"], c["drop_phase_plane"], c["stale_index"] = ".vcf", "GenotypesVCF", None, None, False, None
+            p = nv_
         c["stale_index"] = None
         r = rng.random()
         if r < 0.15 and p > 1 and fmt != ".vcf.gz+idx":
